@@ -177,6 +177,12 @@ def td_to_us(v):
     raise Unsupported(f"timedelta term of {v!r}")
 
 
+PY_LOWER = z3.Function("py_lower", StrSort, StrSort)
+PY_UPPER = z3.Function("py_upper", StrSort, StrSort)
+SPLIT1_HEAD = z3.Function("split1_head", StrSort, StrSort, StrSort)
+SPLIT1_TAIL = z3.Function("split1_tail", StrSort, StrSort, StrSort)
+PY_ISDIGIT = z3.Function("py_isdigit", StrSort, z3.BoolSort())
+PY_REMOVEPREFIX = z3.Function("py_removeprefix", StrSort, StrSort, StrSort)
 FDIV = z3.Function("py_floordiv", z3.IntSort(), z3.IntSort(), z3.IntSort())  # a // b for symbolic b > 0
 
 
@@ -729,9 +735,9 @@ def call_sym_method(it, m, a, k):
         if name == "strip" and not a:
             return Sym(STRIP(s), str)
         if name == "lower" and not a:
-            return Sym(z3.Function("py_lower", StrSort, StrSort)(s), str)
+            return Sym(PY_LOWER(s), str)
         if name == "upper" and not a:
-            return Sym(z3.Function("py_upper", StrSort, StrSort)(s), str)
+            return Sym(PY_UPPER(s), str)
         if name == "startswith":
             pre = a[0]
             if isinstance(pre, tuple):
@@ -743,11 +749,18 @@ def call_sym_method(it, m, a, k):
             return Sym(s, str, tag="encoded")
         if name == "split" and not a:
             return SymSplit(obj)
+        if name == "split" and len(a) == 2 and isinstance(a[0], str) and a[1] == 1:
+            # text.split(sep, 1): [head, tail] when sep occurs, else [text]
+            sep = str_const(a[0])
+            if it.truth(mk_bool(CONTAINS(s, sep))):
+                return [Sym(SPLIT1_HEAD(s, sep), str),
+                        Sym(SPLIT1_TAIL(s, sep), str)]
+            return [obj]
         if name == "isdigit":
-            return mk_bool(z3.Function("py_isdigit", StrSort, z3.BoolSort())(s))
+            return mk_bool(PY_ISDIGIT(s))
         if name == "removeprefix":
             p = as_str_term(a[0])
-            return Sym(z3.Function("py_removeprefix", StrSort, StrSort, StrSort)(s, p), str)
+            return Sym(PY_REMOVEPREFIX(s, p), str)
         raise Unsupported(f"str.{name} on symbol")
     if isinstance(obj, Sym) and obj.pyt is _dt.datetime:
         if name == "isoformat" and not a:
